@@ -362,7 +362,11 @@ func Kernel(g *G, thor bool) []Program {
 	// the division-by-10^k tables themselves (checked against the Granlund-Montgomery sufficient condition)
 	g.Emit(M{"op": "K.tables"})
 	// scalar kernels
-	edge := []string{"0", "1", "2", wordMax, "9999999999999999998", "5000000000000000000", "1000000000000000000", "8446744073709551616", "8446744073709551615", "4294967296"}
+	edge := []string{"0", "1", "2", wordMax, "9999999999999999998", "5000000000000000000", "1000000000000000000", "8446744073709551616", "8446744073709551615", "4294967296",
+		// around 2^63 and at the top of the 64-bit range (div10W takes any 64-bit low word; the high word goes up to base-1)
+		"9223372036854775808", "9223372036854775809", "9223372036854775807", "9500000000000000000", "8500000000000000001"}
+	// any 64-bit value (not a decimal word): the low word of div10W's dividend
+	edge64 := []string{"18446744073709551615", "18446744073709551614", "18000000000000000000", "17846744073709551616", "17846744073709551615", "10000000000000000000", "9223372036854775808"}
 	nsc := 400
 	if thor {
 		nsc = 5000
@@ -377,7 +381,12 @@ func Kernel(g *G, thor bool) []Program {
 		emit(M{"k": "mul10WW", "mem": []any{}, "zo": 0, "xo": 0, "n": 0, "y": pick(), "r": pick()})
 		emit(M{"k": "mulAdd10WWW", "mem": []any{}, "zo": 0, "xo": 0, "n": 0, "y": pick(), "r": pick(), "w": pick()})
 		// div10W: n1 < 10^19, n0 any 64-bit word
-		emit(M{"k": "div10W", "mem": []any{}, "zo": 0, "xo": 0, "n": 0, "y": pick(), "r": g.PickS(pick(), "18446744073709551615", wstr(g.R.Uint64()))})
+		emit(M{"k": "div10W", "mem": []any{}, "zo": 0, "xo": 0, "n": 0, "y": pick(), "r": g.PickS(pick(), edge64[g.R.Intn(len(edge64))], wstr(g.R.Uint64()))})
+		if i%4 == 0 { // the corner where a quotient estimate without the sign adjustment is two too small: high word above 8.5e18, low word near 2^64
+			hi := new(big.Int).Add(bigOf("8500000000000000000"), new(big.Int).Rand(g.R, bigOf("1500000000000000000")))
+			lo := new(big.Int).Sub(bigOf("18446744073709551615"), new(big.Int).Rand(g.R, bigOf("700000000000000000")))
+			emit(M{"k": "div10W", "mem": []any{}, "zo": 0, "xo": 0, "n": 0, "y": hi.String(), "r": lo.String()})
+		}
 		// div10WW: u1 < v
 		v := pick()
 		if v == "0" {
